@@ -135,7 +135,7 @@ def build(x):
     nx = x.method(F, 'CollectCountSink', 'next', trait='Operator'); nx.name_result('r')
     nx.add_spec(COUNT_SPEC)
     nx.sub('V-SUBST', r'\*self\.output\.lock\(\)\.unwrap\(\) = Some\(([\w\.]+)\);', r'self.output.publish(\1);', detail='`*self.output.lock().unwrap() = Some(v);` -> publish(v) on the output-cell model', must=True)
-    nx.sub('V-SPEC', r'match self\.prev\.next\(\) \{', 'let __e = self.prev.next();\n        match __e {', detail='scrutinee bound to a ghost-visible name `__e`', must=True)
+    nx.pull_hint('', indent='        ')
     pieces += [st, "impl<PreviousOperators> CollectCountSink<PreviousOperators>\nwhere\n    PreviousOperators: Operator<Out = usize>,\n{", nx, "}"]
 
     # ---- CollectChannelSink
@@ -144,6 +144,6 @@ def build(x):
     nx = x.method(F, 'CollectChannelSink', 'next', trait='Operator'); nx.name_result('r'); nx.add_spec(CHANNEL_SPEC)
     nx.sub('V-COMB', r'let _ = self\.tx\.as_ref\(\)\.map\(\|(\w+)\| \1\.send\((\w+)\)\);', r'match self.tx.as_mut() { Some(\1) => { let _ = \1.send(\2); } None => {} }',
            detail='`let _ = self.tx.as_ref().map(|tx| tx.send(t));` -> `match self.tx.as_mut() { Some(tx) => { let _ = tx.send(t); } None => {} }` (definition of Option::map; R-CHAN: interior mutability of the sender modelled as &mut)', must=True)
-    nx.sub('V-SPEC', r'match self\.prev\.next\(\) \{', 'let __e = self.prev.next();\n        match __e {', detail='scrutinee bound to a ghost-visible name `__e`', must=True)
+    nx.pull_hint('', indent='        ')
     pieces += [st, "impl<Out: ExchangeData, PreviousOperators> CollectChannelSink<Out, PreviousOperators>\nwhere\n    PreviousOperators: Operator<Out = Out>,\n{", nx, "}"]
     return pieces
